@@ -926,3 +926,132 @@ fn slider_reach(p: &Pos, s: u8, rook: bool) -> usize {
     }
     n
 }
+
+
+/// Batteries: a slider of the strong side aimed at the (cornered or edge) king of the weak side with exactly
+/// one strong piece in between that can step off the line — discovered checks and discovered mates, the
+/// checks a "does the moved piece attack the king" shortcut does not see. The weak king's flight squares are
+/// partly blocked by its own men; a few random extras (often loose pieces) complete the position. Either side
+/// to move.
+pub fn g_battery(rng: &mut Rng) -> Pos {
+    loop {
+        let mut p = Pos::empty();
+        let weak = rng.below(2) as u8;
+        let strong = weak ^ 1;
+        p.stm = rng.below(2) as u8;
+        let (kf, kr): (i8, i8) = if rng.chance(1, 2) {
+            (*rng.pick(&[0i8, 7]), *rng.pick(&[0i8, 7]))
+        } else {
+            match rng.below(4) {
+                0 => (rng.below(8) as i8, 0),
+                1 => (rng.below(8) as i8, 7),
+                2 => (0, rng.below(8) as i8),
+                _ => (7, rng.below(8) as i8),
+            }
+        };
+        let ks = sq(kf, kr);
+        p.sq[ks as usize] = pc(weak, K);
+        let dirs: [(i8, i8); 8] = [(1, 0), (0, 1), (-1, 0), (0, -1), (1, 1), (-1, 1), (-1, -1), (1, -1)];
+        let (df, dr) = *rng.pick(&dirs);
+        let mut ray = vec![];
+        let (mut f, mut r) = (kf + df, kr + dr);
+        while on_board(f, r) {
+            ray.push(sq(f, r));
+            f += df;
+            r += dr;
+        }
+        if ray.len() < 2 {
+            continue;
+        }
+        let i = rng.below(ray.len() as u64 - 1) as usize;
+        let j = i + 1 + rng.below((ray.len() - i - 1) as u64) as usize;
+        let orth = df == 0 || dr == 0;
+        let back = if rng.chance(1, 3) { Q } else if orth { R } else { B };
+        let front = *rng.pick(&[P, P, N, N, if orth { B } else { R }, K]);
+        if front == P && (rank_of(ray[i]) == 0 || rank_of(ray[i]) == 7) {
+            continue;
+        }
+        p.sq[ray[j] as usize] = pc(strong, back);
+        p.sq[ray[i] as usize] = pc(strong, front);
+        // the weak king's neighbourhood: own men on some flight squares
+        for (nf, nr) in dirs.iter().map(|(a, b)| (kf + a, kr + b)) {
+            if !on_board(nf, nr) {
+                continue;
+            }
+            let s = sq(nf, nr);
+            if p.sq[s as usize] == 0 && !ray.contains(&s) && rng.chance(1, 2) {
+                let mut k = *rng.pick(&[P, P, N, B, R]);
+                if k == P && (nr == 0 || nr == 7) {
+                    k = N;
+                }
+                p.sq[s as usize] = pc(weak, k);
+            }
+        }
+        if front != K {
+            place(&mut p, rng, pc(strong, K));
+        }
+        // extras: loose pieces of both sides (a capture that wins material raises the bar for the rest
+        // of the node's moves), more strong men covering squares
+        for _ in 0..rng.below(6) {
+            let col = if rng.chance(1, 2) { weak } else { strong };
+            let k = *rng.pick(&[P, P, N, B, R, Q]);
+            let s = place(&mut p, rng, pc(col, k));
+            if ray[..=j].contains(&s) {
+                p.sq[s as usize] = 0; // keep the line itself clear
+            }
+        }
+        decorate(&mut p, rng);
+        if p.validity().is_ok() && p.legal_moves().len() >= 2 {
+            return p;
+        }
+    }
+}
+
+
+/// a move that neither captures nor promotes and gives check by uncovering another piece's line
+pub fn quiet_discovered_check(p: &Pos, m: &Mv) -> bool {
+    if p.is_capture(m) || m.promo != 0 {
+        return false;
+    }
+    let mut n = p.make(m);
+    if !n.in_check() {
+        return false;
+    }
+    if kind(n.sq[m.to as usize]) == K {
+        return true;
+    }
+    n.sq[m.to as usize] = 0;
+    n.in_check()
+}
+
+/// A battery position with the WEAK side to move in which, after at least one of its moves, the strong side
+/// has both a capture of a piece (knight or better) and a quiet discovered-check MATE: the node one ply
+/// above the horizon where a material gain found first raises the bar and the mate has to be found after it.
+pub fn g_battery_loaded(rng: &mut Rng) -> Pos {
+    for _ in 0..600 {
+        let mut p = g_battery(rng);
+        let weak_king_in_corner_side = p.stm;
+        let _ = weak_king_in_corner_side;
+        // make the side whose king is the battery's target the mover: the generator chose sides at random,
+        // so test both readings
+        for _ in 0..2 {
+            if p.validity().is_ok() && !p.in_check() {
+                let good = p.legal_moves().iter().any(|m| {
+                    let n = p.make(m);
+                    let nl = n.legal_moves();
+                    let cap = nl.iter().any(|r| n.is_capture(r) && matches!(kind(n.sq[r.to as usize]), N | B | R | Q));
+                    cap && nl.iter().any(|r| quiet_discovered_check(&n, r) && {
+                        let a = n.make(r);
+                        a.legal_moves().is_empty()
+                    })
+                });
+                if good {
+                    return p;
+                }
+            }
+            p.stm ^= 1;
+            p.ep = NO_EP;
+        }
+    }
+    g_battery(rng)
+}
